@@ -558,6 +558,52 @@ def r5_quantities(ctx):
     ctx.check(ok, 'C15.R5', f'{func_label(fn)}|restore-range-length', loc(fn, fn.node), 'restore: a reference contributes end - start bytes', 'restore: reference length is not end - start')
 
 
+def r6_placeholder_only_for_none(ctx):
+    """The table placeholder stands for "no value" (None) only.  A count of 0, an empty note or any other falsy value
+    is a value and is printed as it is: the substitution is decided by a None test, never by truthiness."""
+    corpus = ctx.corpus
+    cls = repo_cls(corpus)
+    n = 0
+    for m in list(cls.methods.values()) + [x for mm in cls.methods.values() for x in mm.all_nested()]:
+        for u in walk_local(m.node):
+            if not (isinstance(u, ast.Attribute) and u.attr == 'EMPTY_TABLE_VALUE' and isinstance(u.ctx, ast.Load)):
+                continue
+            n += 1
+            ctx.analysed(m)
+            par = getattr(u, '_parent', None)
+            verdict, why = True, ''
+            if isinstance(par, ast.BoolOp):
+                verdict, why = False, f'`{src(par, 70)}` substitutes the placeholder for every falsy value'
+            else:
+                # the governing test: an enclosing conditional expression / if statement
+                cur, test = u, None
+                while cur is not None and cur is not m.node:
+                    p2 = getattr(cur, '_parent', None)
+                    if isinstance(p2, ast.IfExp) and cur is not p2.test:
+                        test = p2.test
+                        break
+                    if isinstance(p2, ast.If) and not any(cur is x for x in ast.walk(p2.test)):
+                        test = p2.test
+                        break
+                    cur = p2
+                if test is not None:
+                    t = test
+                    while isinstance(t, ast.UnaryOp) and isinstance(t.op, ast.Not):
+                        t = t.operand
+                    none_test = isinstance(t, ast.Compare) and len(t.ops) == 1 and isinstance(t.ops[0], (ast.Is, ast.IsNot, ast.Eq, ast.NotEq)) and isinstance(t.comparators[0], ast.Constant) and t.comparators[0].value is None
+                    if not none_test:
+                        verdict, why = False, f'the placeholder is chosen on `{src(test, 60)}`, not on a None test'
+            ctx.check(
+                verdict,
+                'C15.R6',
+                f'{func_label(m)}|placeholder-only-for-none',
+                loc(m, u),
+                f'{m.name}: the table placeholder replaces None only',
+                f'{m.name}: {why}: a file count / chunk count of 0 (or an empty note) is printed as "{"--"}" - the listing no longer shows the recorded quantity',
+            )
+    ctx.floor('C15.R6', 'uses of the table placeholder', n, 2)
+
+
 def run(ctx):
     from .shared import leftover_from_finished_loop
 
@@ -569,3 +615,4 @@ def run(ctx):
     r3_regex(ctx)
     r4_refusal(ctx)
     r5_quantities(ctx)
+    r6_placeholder_only_for_none(ctx)
